@@ -36,6 +36,7 @@ type World struct {
 	noAssume     map[string]bool // clause keys (pkg::func :: clause) of open findings: checked, never assumed
 	knownFuncs   map[string][]string // package path -> functions that existed on the baseline tree (optional)
 	knownSet     map[string]bool
+	baseLoopForms map[string][]string // pkg::func -> loop forms (range / for) in baseline ordinal order
 	baseLoopSigs map[string][]string // pkg::func -> loop signatures in baseline ordinal order (optional)
 }
 
